@@ -62,6 +62,78 @@ def _typed_set(tp, targs):
         tp.setIsothermalTemperature(targs[0])
 
 
+def _strain_objects(p):
+    from kawin.precipitation.parameters.ElasticFactors import StrainEnergy
+    if p.get("elastic"):
+        el = p["elastic"]
+        se = StrainEnergy()
+        se.setEigenstrain(list(el["eig"]))
+        se.setModuli(G=el["G"], nu=el["nu"])
+        se.setShape("ellipsoid")
+        return se, True
+    if p.get("strain"):
+        se = StrainEnergy()
+        se.setConstantElasticEnergy(p["strain"])
+        return se, False
+    return None, False
+
+
+def _build_from_objects(sc, therm, names, elements, binary, kw, targs, prior, temperature_entry):
+    """The same configuration entered through the parameter objects handed to the constructor (MatrixParameters,
+    PrecipitateParameters, Constraints) instead of the model-level setters; sc['obj_order'] varies the order in which the
+    matrix object receives volume, composition and site densities (its update() hooks depend on what is known already)."""
+    from kawin.precipitation import PrecipitateModel
+    from kawin.precipitation.PrecipitationParameters import MatrixParameters, PrecipitateParameters, Constraints
+    mp = MatrixParameters(list(elements))
+    va = sc["VmA"]
+    steps = {"vol": lambda: mp.volume.setVolume(va[0], va[1], va[2]),
+             "comp": lambda: setattr(mp, "initComposition", sc["x0"] if binary else list(sc["x0"])),
+             "sites": (lambda: mp.nucleationSites.setNucleationDensity(**sc["nucdens"])) if "nucdens" in sc else (lambda: None)}
+    for key in {0: ("vol", "comp", "sites"), 1: ("comp", "vol", "sites"), 2: ("sites", "comp", "vol")}[sc.get("obj_order", 0) % 3]:
+        steps[key]()
+    if "gbe" in sc:
+        mp.GBenergy = sc["gbe"]
+    opts = sc.get("options") or {}
+    if "theta" in opts:
+        mp.theta = opts["theta"]
+    if "effectiveDiffusion" in opts:
+        mp.effectiveDiffusion.isEnabled = opts["effectiveDiffusion"]
+    pps = []
+    for p in sc["phases"]:
+        pp = PrecipitateParameters(p["name"])
+        pp.gamma = p["gamma"]
+        vb = p["VmB"]
+        pp.volume.setVolume(vb[0], vb[1], vb[2])
+        shape = p.get("shape", "sphere")
+        if shape != "sphere":
+            pp.shapeFactor.setPrecipitateShape(shape, p.get("ar", 1))
+        pp.nucleation.setNucleationType(p.get("site", "bulk"))
+        se, calc = _strain_objects(p)
+        if se is not None:
+            pp.strainEnergy = se
+            pp.calculateAspectRatio = calc
+        pps.append(pp)
+    for child, parents in (opts.get("parents") or {}).items():
+        pps[names.index(child)].parentPhases = [names.index(q) for q in parents]
+    cons = Constraints()
+    for k_, v_ in (sc.get("constraints") or {}).items():
+        setattr(cons, k_, v_)
+    m = PrecipitateModel(thermodynamics=therm, matrixParameters=mp, precipitateParameters=pps, constraints=cons, **kw)
+    for how, spec in prior:
+        m.setTemperature(*make_temperature(spec))
+    if temperature_entry == "typed":
+        _typed_set(m.temperatureParameters, targs)
+    elif temperature_entry not in ("constructor", "typed_ctor"):
+        m.setTemperature(*targs)
+    if "betaBinary" in opts:
+        m.setBetaBinary(opts["betaBinary"])
+    pb = sc["pbm"]
+    m.setPBMParameters(cMin=pb["cmin"], cMax=pb["cmax"], bins=pb["bins"], minBins=pb["minBins"], maxBins=pb["maxBins"], adaptive=pb.get("adaptive", True))
+    for nm in sc.get("record_psd", []):
+        m.setPSDrecording(True, phase=nm)
+    return m
+
+
 def build_model(sc, therm=None, temperature_entry="setter"):
     """Builds a PrecipitateModel from a scenario dict.  Returns (model, therm)."""
     from kawin.precipitation import PrecipitateModel
@@ -84,6 +156,8 @@ def build_model(sc, therm=None, temperature_entry="setter"):
         kw["temperatureParameters"] = tp
     elif prior and prior[0][0] == "ctor":
         kw["temperatureParameters"] = TemperatureParameters(*make_temperature(prior.pop(0)[1]))
+    if sc.get("api") == "objects":
+        return _build_from_objects(sc, therm, names, elements, binary, kw, targs, prior, temperature_entry), therm
     m = PrecipitateModel(phases=names, elements=elements, thermodynamics=therm, **kw)
     m.setInitialComposition(sc["x0"] if binary else list(sc["x0"]))
     for how, spec in prior:            # earlier schedules, each replaced by the next: only the last one set may matter
